@@ -121,8 +121,8 @@ def plan_c13(tier, seed):
 def plan_c18(tier, seed):
     """representations are part of the state key: every (stored A|B) x (operation / query A|B) combination"""
     types = ["u8", "Ipv4Net", "Ipv6Inet"] if tier == "quick" else [t for t in ALL if "Cidr" not in t]
-    runs = [ex("map", t, "U2", "hi", "full", ["exact", "lpm", "cover", "children", "views"], reps=True, threads=6, nav_light=True) for t in types]
-    runs += [ex("set", t, "U2", "hi", "full", ["lookups"], reps=True, threads=2) for t in types]
+    runs = [ex("map", t, "U2", "hi", "repr", ["exact", "lpm", "cover", "children", "views"], reps=True, threads=6, retain_all=(tier == "thorough")) for t in types]
+    runs += [ex("set", t, "U2", "hi", "repr", ["lookups"], reps=True, threads=2, retain_all=(tier == "thorough")) for t in types]
     runs += grid(["map"], ALL, ["U2"], ["lo"], "structural", ["exact", "lpm"], rep_mode=2)
     runs += plan_pairs(tier, seed)["runs"]
     return {"runs": runs, "jobs": 4}
